@@ -231,7 +231,20 @@ def run(check, mirror, tier):
                '</context></decision></definitions>')
         _, out, _ = replay_call(rb, ["model_eval", xml, "d", "{}"])
         want = "VALUE {a: 1, b: {a: 2, r: 20}, c: 1}"
-        return out.strip() != want, "decision d = context{a: 1, b: context{a: 2, r: a * 10}, c: a} -> %s, specified %s" % (out[:80], want[6:])
+        # a nested context that ENDS IN A RESULT EXPRESSION and binds a name the enclosing decision gets as an input: the sibling evaluated afterwards
+        # must see the input, not what the nested context left behind
+        xml2 = ('<?xml version="1.0" encoding="UTF-8"?><definitions namespace="https://verif" name="m" id="_m" xmlns="https://www.omg.org/spec/DMN/20191111/MODEL/">'
+                '<inputData name="x" id="_x"><variable name="x" typeRef="number"/></inputData>'
+                '<decision name="d" id="_d"><variable name="d"/><informationRequirement><requiredInput href="#_x"/></informationRequirement><context>'
+                '<contextEntry><variable name="inner"/><context>'
+                '<contextEntry><variable name="x"/><literalExpression><text>100</text></literalExpression></contextEntry>'
+                '<contextEntry><literalExpression><text>x + 1</text></literalExpression></contextEntry></context></contextEntry>'
+                '<contextEntry><variable name="r"/><literalExpression><text>x</text></literalExpression></contextEntry>'
+                '</context></decision></definitions>')
+        _, out2, _ = replay_call(rb, ["model_eval", xml2, "d", "{x: 200}"])
+        want2 = "VALUE {inner: 101, r: 200}"
+        return out.strip() != want or out2.strip() != want2, ("decision d = context{a: 1, b: context{a: 2, r: a * 10}, c: a} -> %s, specified %s; d = context{inner: context{x: 100, <result> x + 1}, r: x} on {x: 200} "
+                                                              "-> %s, specified %s") % (out[:60], want[6:], out2[:60], want2[6:])
     jobs.append(lambda c: decide(c, crate_me, "scope_balance/build_context_evaluator", setup_boxed, post_boxed, replay_boxed, rb, models=MODELS, unwind=12,
                                  describe=lambda m, inputs: {k: (bool(model_value(m, v)) if k == "has_result_entry" else model_value(m, v)) for k, v in inputs.items() if not k.startswith("_")},
                                  need_reach=["reach:two entries and a result"], budget_s=600, min_paths=2, timeout_ms=20000))
